@@ -10,6 +10,10 @@ CHECKS = {
                      "is covered at once by z3 over the symbolically executed MIR of new/next (exact real arithmetic; Minimum/Maximum exact; SD/BB on variances); "
                      "violations are replayed natively before being reported.",
                 technique="symbolic execution of rustc MIR into z3 (QF_UFLRA abstraction then QF_NRA), native replay of models", design='4/C01'),
+    'C02': dict(text="Bounded model checking by solver: EMA, TrueRange, ATR, MACD, KeltnerChannel with the smoothing period a *symbolic* integer (every period 1..1e6 at once, incl. 1, "
+                     "equal and inverted fast/slow), ChandelierExit for window periods n<=4 (5), all real inputs / independent bar fields, every prefix up to t=8 (12), against closed-form "
+                     "weighted sums; violations replayed natively.",
+                technique="symbolic execution of rustc MIR into z3 with symbolic smoothing factor; polynomial normal form + NRA; native replay", design='4/C02'),
 }
 NA = {
     'C19': "decided by rustc's type checker once and for all; there is no input, state or schedule for an SMT/SAT solver to quantify over",
